@@ -70,6 +70,42 @@ Theorem C37_chunkinfo_req_total : forall (self : list N) (fwd_ok : bool) (m : op
 Proof. exact chunkinfo_req_total. Qed.
 Print Assumptions C37_chunkinfo_req_total.
 
+(** multicast: group handshake, notify, find-group, multicast and group-message handlers *)
+Theorem C37_multicast_handshake_notify_total : forall (self peer : list N) (gids : option (list (list N))) (n : option (Z * list (list N))),
+  mc_handshake MaxPO self peer gids <> Panicked /\ mc_notify MaxPO self peer n <> Panicked.
+Proof. intros. split; [apply mc_handshake_total | apply mc_notify_total]. Qed.
+Print Assumptions C37_multicast_handshake_notify_total.
+
+Theorem C37_multicast_find_multicast_total : forall (max_ttl : Z) (served : bool) (m : option find_group_req) (self origin gid : list N) (mm : option unit),
+  mc_find_group max_ttl served m <> Panicked /\ mc_multicast self origin gid mm <> Panicked.
+Proof. intros. split; [apply mc_find_group_total | destruct mm; discriminate]. Qed.
+Print Assumptions C37_multicast_find_multicast_total.
+
+(** group message incl. the SendReceive session reader: any further bytes the peer sends *)
+Theorem C37_multicast_message_total : forall (joined subscribed : bool) (m : option group_msg) (second_frame : bool),
+  mc_message true joined subscribed m second_frame <> Panicked.
+Proof. exact mc_message_total. Qed.
+Print Assumptions C37_multicast_message_total.
+
+(** routetab: route request / response (path lists of any shape), underlay lookup, relay
+    connection chain front, underlay client read *)
+Theorem C37_routetab_route_total : forall (max_ttl : nat) (self : list N) (m : option (list N * list rt_path)),
+  rt_req max_ttl self m <> Panicked /\ rt_resp max_ttl self m <> Panicked.
+Proof. intros. split; [apply rt_req_total | apply rt_resp_total]. Qed.
+Print Assumptions C37_routetab_route_total.
+
+Theorem C37_routetab_underlay_relay_total : forall (in_book : bool) (self : list N) (is_conn sig_ok : bool)
+    (m1 : option (list N)) (m2 : option (list N * list N)) (m3 : option unit),
+  rt_underlay in_book m1 <> Panicked /\ rt_connchain self is_conn m2 <> Panicked /\ rt_find_underlay sig_ok m3 <> Panicked.
+Proof. intros. apply rt_small_total. Qed.
+Print Assumptions C37_routetab_underlay_relay_total.
+
+(** retrieval handler and the relayed Delivery it reads *)
+Theorem C37_retrieval_total : forall (self : list N) (has_chunk full root_known : bool) (m : option req_chunk) (deliv : option (list N * bool)),
+  retrieval_handler self has_chunk full root_known m deliv <> Panicked.
+Proof. exact retrieval_handler_total. Qed.
+Print Assumptions C37_retrieval_total.
+
 (** non-vacuity: the models distinguish outcomes — a complete valid exchange succeeds,
     and the unrepaired code does panic on a SynAck without Syn *)
 Example C37_nonvacuous :
